@@ -82,6 +82,7 @@ def parseStep : List String → Option (Step × Nat)
   | ["ioPop", b, r] => do let b ← parseBit b; let r ← r.toNat?; pure (.ioPop b, r)
   | ["ioComplete", sid] => do let sid ← sid.toNat?; pure (.ioComplete sid, 0)
   | ["ioFail", sid, r] => do let sid ← sid.toNat?; let r ← r.toNat?; pure (.ioFail sid, r)
+  | ["timerClose", sid, r] => do let sid ← sid.toNat?; let r ← r.toNat?; pure (.timerClose sid, r)
   | ["ioPeerClose", sid, r] => do let sid ← sid.toNat?; let r ← r.toNat?; pure (.ioPeerClose sid, r)
   | ["ioStep"] => some (.ioStep, 0)
   | ["fence"] => some (.fence, 0)
@@ -144,6 +145,14 @@ def step (d : D) : List String → D × String
       let x' := xsteps d.x ([(.ioFail sid, r)] ++ ioDrain)
       ({ d with x := x' }, s!"{if fired then "fired" else "ignored"} {joinEvs (obsSince d.x x')} | {showState x'.core}")
     | _, _ => (d, "bad-op")
+  | ["timer", sid] =>
+    -- the engine's connect-timeout Close for `sid` is processed: executed (reason Timeout) only while the connect is pending
+    match sid.toNat? with
+    | some sid =>
+      let fired := d.x.core.eng sid == .connecting
+      let x' := xsteps d.x ([(.timerClose sid, 3)] ++ ioDrain)
+      ({ d with x := x' }, s!"{if fired then "fired" else "ignored"} {joinEvs (obsSince d.x x')} | {showState x'.core}")
+    | none => (d, "bad-op")
   | ["peerclose", sid] =>
     match sid.toNat? with
     | some sid =>
